@@ -43,6 +43,7 @@ Proof.
   - unfold upd_conn. destruct (lookup cid (conns s)); discriminate.
   - destruct (is_down s node); discriminate.
   - discriminate.
+  - destruct (lookup cid (conns s)); discriminate.
 Qed.
 
 Theorem close_never_panics : forall h s p, run Fixed s h <> Panic p.
@@ -222,7 +223,8 @@ Proof.
     - unfold upd_conn in H. destruct (lookup cid (conns s)); [|discriminate]. inversion H; now left.
     - unfold upd_conn in H. destruct (lookup cid (conns s)); [|discriminate]. inversion H; now left.
     - destruct (is_down s node); [discriminate|]. inversion H; now left.
-    - inversion H. right. now exists node. }
+    - inversion H. right. now exists node.
+    - destruct (lookup cid (conns s)); [|discriminate]. inversion H; now left. }
   destruct K as [K | [m K]]; rewrite K; [assumption|].
   unfold memN in *. cbn [existsb]. rewrite D. now rewrite orb_true_r.
 Qed.
@@ -277,6 +279,22 @@ Theorem pinned_second_close_unregisters_refuted :
   (exists s, run Pinned init h_reuse = Ok s /\ registry Pinned s 0 = []) /\
   (exists s, run Fixed init h_reuse = Ok s /\ registry Fixed s 0 = [10]).
 Proof. split; vm_compute; eexists; split; reflexivity. Qed.
+
+(* ---------- the other methods of Conn ---------- *)
+(* CancelRead, deadlines, reads and writes change nothing ... *)
+Theorem stream_op_changes_nothing : forall v s cid d,
+  step v s (StreamOp cid d) = Ok s \/ step v s (StreamOp cid d) = Reject.
+Proof. intros. cbn [step]. destruct (lookup cid (conns s)); auto. Qed.
+
+(* ... so Conn.Close and CloseConnection release exactly the same things after any number of
+   them (in particular after the peer's CancelRead, when closing the QUIC stream fails) *)
+Theorem close_releases_the_same_after_stream_ops : forall v s ops o,
+  Forall (fun x => exists cid d, x = StreamOp cid d) ops ->
+  run v s (ops ++ [o]) = run v s [o].
+Proof.
+  intros v s ops o H. induction H as [|x ops [cid [d E]] _ IH]; [reflexivity|].
+  subst x. cbn [app run]. destruct (stream_op_changes_nothing v s cid d) as [R|R]; rewrite R; exact IH.
+Qed.
 
 (* ---------- ping ---------- *)
 Theorem ping_leaves_nothing : forall s n ok, step Fixed s (PingOp n ok) = Ok s \/ step Fixed s (PingOp n ok) = Reject.
